@@ -428,14 +428,25 @@ class Tensor:
     # ******* Basic ops *******
     # *************************
     
+    def _operand(self, other) -> 'Tensor':
+        """ Wraps the other operand of a binary operator. A Python or NumPy number combined with a floating point
+        tensor adopts that tensor's dtype (as in PyTorch): it neither promotes a float32 tensor nor is it rounded
+        to the default float32 before meeting a float64 tensor """
+        if isinstance(other, Tensor):
+            return other
+        if isinstance(other, (int, float, np.integer, np.floating)) and not isinstance(other, (bool, np.bool_)) \
+                and self.is_floating_point:
+            return Tensor(np.array(other, dtype=self.data.dtype), device=self.device)
+        return Tensor(other, device=self.device)
+    
     def __add__(self, summand:'Tensor') -> 'Tensor':
-        summand = summand if isinstance(summand, Tensor) else Tensor(summand, device=self.device)
+        summand = self._operand(summand)
         from . import functional as F
         return  F.add(self, summand)
         
         
     def __mul__(self, factor:'Tensor') -> 'Tensor':
-        factor = factor if isinstance(factor, Tensor) else Tensor(factor, device=self.device)
+        factor = self._operand(factor)
         from . import functional as F
         return F.mul(self, factor)
     
